@@ -281,7 +281,7 @@ func c16Limiter(t *testing.T) {
 	coarse := c16Secs(10, 30, 50, 60)
 	clip := 2 * time.Minute
 	var cfgs []*c16LimCfg
-	dFine, dFineWide := 12, 8
+	dFine, dFineWide := 11, 8
 	if vrep.Thorough() {
 		dFine, dFineWide = 15, 10
 	}
